@@ -288,6 +288,30 @@ def alloc_site(term):
     return None
 
 
+def sel_re(inner):
+    """Regex (string) for a selection over the iterator matched by `inner` written as `filter_map(it, f)` or as
+    `filter(it, p)` followed by `map(.., g)` — the two spellings of "keep some elements and project them"."""
+    cl = r"closure\(\{closure#\d+\}\)"
+    return r"(?:Iterator::filter_map\(%s, %s\)|Iterator::map\(Iterator::filter\(%s, %s\), %s\))" % (inner, cl, inner, cl, cl)
+
+
+def selection_of(c, base_iter):
+    """Is the canonical string `c` a collected element-wise selection of `base_iter` — `collect(` any chain of
+    filter / filter_map / map / cloned / copied `over base_iter)`?  Such a collection has at most one element per element of
+    the base, in the base's order, and is empty when the base is.  Returns the list of adaptors (outermost last) or None."""
+    m = re.fullmatch(r"Iterator::collect\((.*)\)", c)
+    if not m:
+        return None
+    cur, chain = m.group(1), []
+    while cur != base_iter:
+        m = re.fullmatch(r"Iterator::(filter|filter_map|map|cloned|copied)\((.*?)(?:, closure\(\{closure#\d+\}\))?\)", cur)
+        if not m:
+            return None
+        chain.append(m.group(1))
+        cur = m.group(2)
+    return list(reversed(chain))
+
+
 # ---- canonical strings --------------------------------------------------------
 
 def canon(t, depth=0):
@@ -307,6 +331,8 @@ def canon(t, depth=0):
             return "fn:" + t[2]
         return repr(t[2]) if t[1] == "str" else str(t[2])
     if tag == "elem":
+        if len(t) > 2 and isinstance(t[2], str) and t[2].endswith("DoubleEndedIterator::rfind"):
+            return "elem(Iterator::rev(%s))" % canon(t[1], d)    # the closure of `rfind` sees the elements of the reversed iteration
         return "elem(%s)" % canon(t[1], d)
     if tag == "mutated":
         return "mut!(%s via %s)" % (canon(t[1], d), "/".join(t[2]))
@@ -370,7 +396,17 @@ def canon(t, depth=0):
             if m_cap:
                 # a capacity hint is not observable: `Vec::with_capacity(n)` is the empty collection `Vec::new()`
                 return "%s::new()" % m_cap.group(1)
+        if isinstance(t[1], str) and len(t[2]) == 2 and t[1] in ("std::iter::DoubleEndedIterator::rfind", "<I as std::iter::DoubleEndedIterator>::rfind"):
+            # `it.rfind(p)` is `it.rev().find(p)`
+            return "Iterator::find(Iterator::rev(%s), %s)" % (canon(t[2][0], d), canon(t[2][1], d))
         sn = short(t[1])
+        if sn in ("Option::copied", "Iterator::copied"):
+            sn = sn.replace("copied", "cloned")     # for a `Copy` type the two are one operation
+        if sn == "Option::unwrap_or" and len(t[2]) == 2:
+            a0 = strip(t[2][0])
+            if a0[0] == "call" and isinstance(a0[1], str) and short(a0[1]) in ("Option::copied", "Option::cloned") and a0[2]:
+                # `*opt.unwrap_or(&d)` and `opt.copied().unwrap_or(d)`: terms are reference-free, so these read alike
+                return "Option::unwrap_or(%s, %s)" % (canon(a0[2][0], d), canon(t[2][1], d))
         if sn in ("Option::expect", "Result::expect", "Result::expect_err") and len(t[2]) == 2:
             # the panic message is documentation, not behaviour
             return "%s(%s, '_')" % (sn, canon(t[2][0], d))
